@@ -265,6 +265,8 @@ def check_C13(run, replay):
     trace = run.path("trace.ndjson")
     out = harness(["record", "named", "--seed", seed, "--n", n, "--out", trace])
     info = json.loads(out.strip().splitlines()[-1])
+    for f in info.get("failed", [])[:5]:
+        run.violation("named:rejected", {"event": f, "context": {"seed": seed, "n": n}})
     ok = validate_trace(run, "Trace_NamedView", trace,
                         lambda rec: "named:%s" % (rec or {}).get("e", "?"), {"seed": seed, "n": n})
     run.traces += info["runs"]
